@@ -226,9 +226,32 @@ def expected(i):
     return i * i + 1
 
 
-def task(i, fault, how, arg, sleep, arm=False):
+def _nested_square(x):
+    return x * x
+
+
+def run_nested():
+    """the worker starts loky workers OF ITS OWN (nested Parallel) and records their pids: if it is killed
+    afterwards they are orphans which must not keep anything of the dead worker alive (its sentinel pipe)"""
+    if os.getpid() == PARENT:
+        return
+    from joblib import Parallel, delayed
+    from joblib.externals.loky import reusable_executor
+    r = Parallel(n_jobs=2, backend="loky")(delayed(_nested_square)(x) for x in range(4))
+    assert r == [0, 1, 4, 9], r
+    ex = reusable_executor._executor
+    pids = sorted(ex._processes) if ex is not None else []
+    tmp = os.path.join(SYNC, "nested_%d.tmp" % os.getpid())
+    with open(tmp, "w") as f:
+        f.write(" ".join(map(str, pids)))
+    os.rename(tmp, os.path.join(SYNC, "nested_%d" % os.getpid()))
+
+
+def task(i, fault, how, arg, sleep, arm=False, nested=False):
     """fault: None | 'task_start' | 'mid_task' | 'result_pickle' | 'mid_send' | 'after_send'
     ('arg_unpickle' acts through `arg`, a Bomb)."""
+    if nested:
+        run_nested()
     if arm:
         arm_idle_exit()
     if fault == "stubborn":
